@@ -7,7 +7,7 @@ from ..spec import Clock
 from ..canon import Snap, problem_diff, vec_diff
 
 PROPERTY = 'C12'
-CASES = {'quick': 132, 'thorough': 2000}
+CASES = {'quick': 396, 'thorough': 3168}
 BUDGET_S = {'quick': 240, 'thorough': 2400}
 RULE = ('case = a random portfolio S (all LP asset classes + Plant/CHP with min runtime/downtime/ramp/running costs/fuel rates, storages with inflow, '
         'holding cost, max holding duration, scaled assets with fixed cost rate) on a grid with freq in 15min..d, zones with DST switches inside the '
@@ -20,7 +20,7 @@ RULE = ('case = a random portfolio S (all LP asset classes + Plant/CHP with min 
 ASSUMPTIONS = ['the plant ramp is converted with the first step\'s length in EAO; ramp on grids with unequal steps is excluded from clause (b)',
                'start/shutdown ramp profiles are excluded (their default frequency is the main time unit itself)',
                'durations are generated as multiples of the step so that rounding to steps does not differ between units']
-MIN_NONVACUOUS = {'quick': {'unit.problem_equal': 100, 'unit.value_equal': 80, 'steps.bounds_are_rate_times_elapsed': 150, 'steps.unequal_steps_bounds': 60},
+MIN_NONVACUOUS = {'quick': {'unit.problem_equal': 250, 'unit.value_equal': 200, 'steps.bounds_are_rate_times_elapsed': 375, 'steps.unequal_steps_bounds': 150},
                   'thorough': {'unit.problem_equal': 1500, 'steps.unequal_steps_bounds': 400}}
 RATE_KEYS = ('min_cap', 'max_cap', 'cap_in', 'cap_out', 'inflow', 'cost_store', 'ramp', 'running_costs', 'fix_costs', 'consumption_if_on', 'last_dispatch',
              'min_load_threshhold', 'min_load_costs')
